@@ -22,7 +22,7 @@ RULE_TEXT = (
     "reboots for any subset placed at +-100us, +-res/4 and exactly at each round instant of the run so far, discovery stop / start, busy "
     "periods. non-trivial = at least one round was judged; distinct = interleaving signature"
 )
-PROBES = ["rounds_judged", "round_with_expiry_or_arrival_at_the_same_instant", "round_skipped_everything_found", "first_round_min_eq_max"]
+PROBES = ["watch_while_rounds_running", "rounds_judged", "round_with_expiry_or_arrival_at_the_same_instant", "round_skipped_everything_found", "first_round_min_eq_max"]
 RUNS = {"quick": 30000, "thorough": 2500000}
 FILTER_POOL = [
     [0x1111, 0xFFFF, 0xFF, 0xFFFFFFFF],
@@ -61,13 +61,14 @@ def gen(seed, idx, tier):
     }
     nf = r.randint(1, 4)
     filters = r.sample(FILTER_POOL, nf)
+    late_watch = nf > 1 and r.random() < 0.25  # the last filter is only watched while the rounds are already running
     cfg = {"filters": filters, "timings": timings, "sock_flip": r.choice([0, 0.5, 1.0])}
     u = r.random()
     if u < 0.2:
         cfg["uniform"] = [0.0]
     elif u < 0.4:
         cfg["uniform"] = [1.0]
-    ops = [{"k": "call", "t": 0.0, "f": "watch", "a": [i, f"L{i}"]} for i in range(nf)]
+    ops = [{"k": "call", "t": 0.0, "f": "watch", "a": [i, f"L{i}"]} for i in range(nf - (1 if late_watch else 0))]
     # some offers may already be known at start
     t = 0.0
     if r.random() < 0.3:
@@ -102,6 +103,9 @@ def gen(seed, idx, tier):
         elif k < 0.75:
             ops.append({"k": "preboot", "t": t, "p": p})
             ops.append({"k": "sd", "t": t, "p": p, "ch": ch, "e": [["find", 0x7777, 0xFFFF, 0xFF, 0xFFFFFFFF, 3]]})
+        elif k < 0.85 and late_watch:
+            ops.append({"k": "call", "t": t, "f": "watch", "a": [nf - 1, f"L{nf - 1}"], "ph": r.choice(["io", "timer", "late"])})
+            late_watch = False
         elif k < 0.85:
             ops.append({"k": "call", "t": t, "f": r.choice(["disc_stop", "disc_start"]), "a": [], "ph": r.choice(["io", "timer", "late"])})
         else:
